@@ -60,9 +60,9 @@ Proof.
   - exact Ht.
 Qed.
 
-Lemma esc_unicode_P27 : forall x, P27 (esc_unicode x).
+Lemma esc_u4_P27 : forall x, P27 (esc_u4 x).
 Proof.
-  intros x. apply esc_unicode_forall; try (unfold ne27; discriminate).
+  intros x. apply esc_u4_forall; try (unfold ne27; discriminate).
   intros y Hy. unfold hex_range in Hy. unfold ne27. lia.
 Qed.
 
@@ -216,7 +216,7 @@ Section NoEsc.
     assert (Hr : P27 (replace_cp 35 [92; 35] (re_nv c0 e))).
     { apply replace_P27; [apply p27b_ok; reflexivity|]. apply re_nv_P27. exact H. }
     unfold P27 in Hr. rewrite Forall_forall in Hr. specialize (Hr x Hx).
-    unfold hv. destruct (mem_cp x verbose_ws); [apply esc_unicode_P27|].
+    unfold hv. destruct (mem_cp x verbose_ws); [apply esc_u4_P27|].
     constructor; [exact Hr|constructor].
   Qed.
 End NoEsc.
@@ -236,11 +236,8 @@ Qed.
 
 Lemma lines_P27 : forall s, P27 s -> Forall P27 (lines s).
 Proof.
-  intros s H. rewrite lines_eq.
-  pose proof (drop_last_empty_Forall _ _ (splitnl_P27 s H)) as F.
-  apply Forall_forall. intros l Hl. apply in_map_iff in Hl. destruct Hl as [l0 [E Hl0]].
-  rewrite Forall_forall in F. specialize (F l0 Hl0). subst l.
-  rewrite strip_cr_scr. destruct (scr_prefix l0) as [t Et].
+  intros s H. rewrite lines_eq. apply lines_of_Forall; [|apply splitnl_P27; exact H].
+  intros l0 F. rewrite strip_cr_scr. destruct (scr_prefix l0) as [t Et].
   unfold P27 in F. rewrite Et in F. apply Forall_app in F. destruct F as [F _]. exact F.
 Qed.
 
